@@ -46,6 +46,9 @@ def rejection_cases(draw, max_n=60, logprobs=False):
     # libraries whose recorded ln_prior is -inf for some rows (e.g. evaluated under a narrower prior): the rejection step
     # looks at the likelihood only
     case["ln_prior_neg_inf"] = draw(st.sampled_from([False, False, True]))
+    # column dtypes of the library: all double, the period column in single precision, or everything in single precision
+    # (prior.sample(dtype=float32)); only for libraries stored in the sampler's internal units
+    case["lib_dtype"] = draw(st.sampled_from([None, None, None, "P_f4", "all_f4"])) if case["lib_units"] is None else None
     return case
 
 
@@ -130,6 +133,9 @@ def run_rejection(ctx, case, lib=None, lls=None, iterative=None, order_fn=None):
             lp_ = np.asarray(lib["ln_prior"], dtype=float).copy()
             lp_[(np.arange(n) + case.get("profile_seed", 0)) % 3 == 0] = -np.inf
             lib["ln_prior"] = lp_
+        if case.get("lib_dtype") and not case.get("lib_units"):
+            for nm_ in (("P",) if case["lib_dtype"] == "P_f4" else ("P", "e", "omega", "M0", "s")):
+                lib[nm_] = lib[nm_].astype(np.float32)
         from vt import gens as _gens
         _gens.age_samples(lib, case.get("lib_history"))
     holder = [None]
